@@ -753,6 +753,74 @@ func (e *OrdEngine) refine(cond ssa.Value, truth bool, fr *Frame, f *Fact) {
 	}
 }
 
+// reloadNilness: x loads a struct field at the top of a block that is entered only through an If edge which
+// compared a load of the same field (same base expression) with nil, and nothing between the two loads can
+// have written the field (no call, no store to that field).  The nil-ness of x is then what the edge says.
+func reloadNilness(x *ssa.UnOp) (avKind, bool) {
+	fld := fieldOfAddr(x.X)
+	b := x.Block()
+	if fld == nil || b == nil || len(b.Preds) != 1 {
+		return 0, false
+	}
+	pred := b.Preds[0]
+	if len(pred.Instrs) == 0 {
+		return 0, false
+	}
+	ifi, ok := pred.Instrs[len(pred.Instrs)-1].(*ssa.If)
+	if !ok {
+		return 0, false
+	}
+	bo, ok := ifi.Cond.(*ssa.BinOp)
+	if !ok || (bo.Op != token.EQL && bo.Op != token.NEQ) {
+		return 0, false
+	}
+	var u ssa.Value
+	if c, ok := bo.Y.(*ssa.Const); ok && c.IsNil() {
+		u = bo.X
+	} else if c, ok := bo.X.(*ssa.Const); ok && c.IsNil() {
+		u = bo.Y
+	}
+	ul, ok := u.(*ssa.UnOp)
+	if !ok || ul.Op != token.MUL || ul.Block() != pred || fieldOfAddr(ul.X) != fld || !sameExpr(ul, x, 0) {
+		return 0, false
+	}
+	clobbers := func(ins ssa.Instruction) bool {
+		switch y := ins.(type) {
+		case ssa.CallInstruction:
+			return true
+		case *ssa.Store:
+			return fieldOfAddr(y.Addr) == fld
+		}
+		return false
+	}
+	after := false
+	for _, ins := range pred.Instrs {
+		if ins == ssa.Instruction(ul) {
+			after = true
+			continue
+		}
+		if after && clobbers(ins) {
+			return 0, false
+		}
+	}
+	for _, ins := range b.Instrs {
+		if ins == ssa.Instruction(x) {
+			break
+		}
+		if clobbers(ins) {
+			return 0, false
+		}
+	}
+	truth := b == pred.Succs[0] && pred.Succs[0] != pred.Succs[1]
+	if !truth && b != pred.Succs[1] {
+		return 0, false
+	}
+	if (bo.Op == token.EQL) == truth {
+		return avNil, true
+	}
+	return avNonNil, true
+}
+
 // assign sets the value of v; if v is a load from a tracked cell whose content is
 // the very same abstract value, the cell is narrowed too.
 func (e *OrdEngine) assign(v ssa.Value, a AV, fr *Frame, f *Fact) {
@@ -1444,6 +1512,8 @@ func (e *OrdEngine) step(ins ssa.Instruction, fr *Frame, f *Fact) []*Fact {
 				e.setVal(x, AV{Tag: pa.Tag}, f)
 			} else if g, ok := x.X.(*ssa.Global); ok && isErrorType(g.Type().(*types.Pointer).Elem()) {
 				e.setVal(x, AV{K: avNonNil}, f) // sentinel error variable
+			} else if k, ok := reloadNilness(x); ok {
+				e.setVal(x, AV{K: k}, f) // `if x.f != nil { return x.f }`: the second load of the field just tested
 			}
 		case token.NOT:
 			a := e.eval(x.X, fr, f)
@@ -1475,6 +1545,11 @@ func (e *OrdEngine) step(ins ssa.Instruction, fr *Frame, f *Fact) []*Fact {
 			}
 		} else if ax.K == avStr && ay.K == avStr && x.Op == token.ADD {
 			e.setVal(x, AV{K: avStr, S: ax.S + ay.S}, f)
+		}
+		if e.Spec.Value != nil {
+			if a, ok := e.Spec.Value(cx, x, f); ok {
+				e.setVal(x, a, f)
+			}
 		}
 		return []*Fact{f}
 	case *ssa.FieldAddr:
